@@ -164,6 +164,9 @@ func Baseline(now time.Time, reqID string, audience string) forge.ResponseSpec {
 
 // BaselineAssertion returns one valid assertion spec.
 func BaselineAssertion(now time.Time, reqID, audience, id, nameID string) forge.AssertionSpec {
+	if audience == "" {
+		audience = SPEntity
+	}
 	return forge.AssertionSpec{
 		ID:           id,
 		IssueInstant: forge.T(now.Add(-10 * time.Second)),
